@@ -11,8 +11,50 @@ THOROUGH = ["WKT_full10.cfg", "WKT_rings16.cfg", "WKT_coll13.cfg", "WKT_multi16.
             "WKT_absrej7.cfg", "WKT_abs.cfg"]
 
 
-def run(ctx, verdict):
+def tree_strings(ctx):
+    """Layer 4: long grammatical strings that enumeration cannot reach (three and more polygons, nested collections of
+    multi-geometries): the canonical and the parenthesised rendering of every tree of the WKTRender model, plus seeded
+    token-level mutations of them (drop / duplicate / swap a token, change the arity of a point, change a keyword's
+    dimension suffix). Decided like every other string: model B folds the parser model over the tokens."""
+    import random
+    out, r = vlib.model_a(ctx, "WKTRenderModel", "WKTRender_quick.cfg" if ctx.quick else "WKTRender_thorough.cfg", ["CASE"], workers=4)
+    rnd = random.Random(ctx.seed)
     cases = []
+    for c in sorted(out["CASE"], key=vlib.digest):
+        for toks in (c["toks"], c["toks2"]):
+            base = toks + [["EOF"]]
+            cases.append(dict(toks=base))
+            if len(toks) < 4:
+                continue
+            for _ in range(2 if ctx.quick else 6):
+                t = [list(x) if isinstance(x, list) else x for x in toks]
+                k = rnd.randrange(len(t))
+                m = rnd.randrange(5)
+                if m == 0:
+                    del t[k]
+                elif m == 1:
+                    t.insert(k, t[k])
+                elif m == 2 and k + 1 < len(t):
+                    t[k], t[k + 1] = t[k + 1], t[k]
+                elif m == 3:
+                    ps = [i for i, x in enumerate(t) if x[0] == "P"]
+                    if not ps:
+                        continue
+                    i = rnd.choice(ps)
+                    vec = list(t[i][2])
+                    vec = vec[:-1] if (rnd.randrange(2) and len(vec) > 1) else vec + [vec[0]]
+                    t[i] = ["P", len(vec), vec]
+                else:
+                    ks = [i for i, x in enumerate(t) if x[0] == "KW"]
+                    i = rnd.choice(ks)
+                    t[i] = ["KW", t[i][1], rnd.choice(["B", "Z", "M", "ZM"])]
+                cases.append(dict(toks=t + [["EOF"]], weak=True))
+    ctx.coverage_extra.setdefault("model_a", []).append(dict(cfg="WKTRender trees as strings", strings=len(cases)))
+    return cases
+
+
+def run(ctx, verdict):
+    cases = tree_strings(ctx)
     for cfg in (QUICK if ctx.quick else THOROUGH):
         cs = w.enumerate_strings(ctx, cfg)
         if "absrej" in cfg:
